@@ -22,6 +22,7 @@
 #include <xercesc/util/BitOps.hpp>
 #include <xercesc/util/XMLUCS4Transcoder.hpp>
 #include <xercesc/util/TranscodingException.hpp>
+#include <xercesc/util/XMLString.hpp>
 #include <cstring>
 
 namespace XERCES_CPP_NAMESPACE {
@@ -92,6 +93,29 @@ XMLUCS4Transcoder::transcodeFrom(const  XMLByte* const          srcData
         // If it needs to be swapped, then do it
         if (fSwapped)
             nextVal = BitOps::swapBytes(nextVal);
+
+        //
+        //  Values beyond the last Unicode code point cannot be represented
+        //  as a surrogate pair. Hand back what was decoded so far, so that
+        //  the caller comes back with the bad value in front, and reject
+        //  it then.
+        //
+        if (nextVal > 0x10FFFF)
+        {
+            if (outPtr != toFill)
+                break;
+
+            XMLCh tmpBuf[17];
+            XMLString::binToText((unsigned int)nextVal, tmpBuf, 16, 16, getMemoryManager());
+            ThrowXMLwithMemMgr2
+            (
+                TranscodingException
+                , XMLExcepts::Trans_BadSrcCP
+                , tmpBuf
+                , getEncodingName()
+                , getMemoryManager()
+            );
+        }
 
         // Handle a surrogate pair if needed
         if (nextVal & 0xFFFF0000)
